@@ -42,7 +42,8 @@ Lemma cut_format_first n hdr plus chunk j :
   cut (OneLine n hdr plus) chunk = CutFormat j ->
   exists size, ends_nl (firstn size chunk) = true /\ j < count_nl (firstn size chunk)
                /\ line_bad n hdr plus j (nth j (lines (firstn size chunk)) []) = true
-               /\ (forall i, i < j -> line_bad n hdr plus i (nth i (lines (firstn size chunk)) []) = false).
+               /\ (forall i, i < j -> line_bad n hdr plus i (nth i (lines (firstn size chunk)) []) = false)
+               /\ count_nl (firstn size chunk) mod n = 0.
 Proof.
   intros Hn Hp Hh0 Hh10 H. rewrite cut_unfold in H.
   destruct (count_nl chunk <? n) eqn:Ec; [discriminate|]. apply Nat.ltb_ge in Ec.
@@ -52,7 +53,7 @@ Proof.
   rewrite Hk, <- Hcnt in H. rewrite <- Hcnt in Hmod, Hge.
   exists sz. split; [exact He|].
   destruct (validate_first n hdr plus Hn Hp (firstn sz chunk) Hmod Hge sz j H) as (H1 & H2 & H3).
-  split; [exact H1|]. split; [exact (H2 Hh0)|exact (H3 Hh10)].
+  split; [exact H1|]. split; [exact (H2 Hh0)|]. split; [exact (H3 Hh10)|exact Hmod].
 Qed.
 
 (* ---------- the reader: every buffer delivered before the error is whole and has no offending line ---------- *)
@@ -64,15 +65,15 @@ Hypothesis Hh10 : hdr <> 10%Z.
 Let f := OneLine n hdr plus.
 Definition good (c : list Z) : Prop := whole n c /\ clean n hdr plus c.
 
+Lemma cutok_clean c size nl : cut f c = CutOk size nl -> clean n hdr plus (firstn size c).
+Proof. intros H. exact (cut_ok_clean n hdr plus Hn Hp c size nl Hh10 H). Qed.
+
 Lemma read_chunk_clean m k file st b d a st' :
   read_chunk true f m k file st = RChunk b d a st' -> clean n hdr plus b.
 Proof.
-  intros Hrun. unfold read_chunk in Hrun.
-  destruct (accumulate true (length file + 2) f k file (r_lines st) (r_pos st) _ false []) as [temp pos' fin app|pending app|l'|];
-    try discriminate.
-  destruct (cut f (concat temp)) as [size nl| | |j] eqn:Ecut; try discriminate.
-  assert (Hb : b = firstn size (concat temp)) by (injection Hrun as <- _ _ _; reflexivity).
-  subst b. exact (cut_ok_clean n hdr plus Hn Hp (concat temp) size nl Hh10 Ecut).
+  intros Hrun.
+  destruct (read_chunk_cutok n hdr plus Hn m k file st b d a st' Hrun) as ((c & size & nl & Hcut & ->) & _).
+  exact (cutok_clean c size nl Hcut).
 Qed.
 
 Lemma loop_format_good m k file : 1 <= k ->
@@ -81,30 +82,15 @@ Lemma loop_format_good m k file : 1 <= k ->
     Forall good (rev acc) -> Forall (fun c => ends_nl c = true) (rev acc) ->
     r_lines st = count_nl (concat (rev acc)) ->
     read_chunks_loop true fuel f m k file st acc = FormatError l chunks ->
-    exists (D : list (list Z)) c j tail,
+    (exists (D : list (list Z)) c j tail,
       l = count_nl (concat D) + j /\ Forall good D /\ Forall (fun c => ends_nl c = true) D
-      /\ cut f c = CutFormat j /\ concat D ++ c ++ tail = norm_text file.
+      /\ cut f c = CutFormat j /\ concat D ++ c ++ tail = norm_text file)
+    \/ (exists (D : list (list Z)) tail,
+      l = count_nl (concat D) /\ Forall good D /\ Forall (fun c => ends_nl c = true) D
+      /\ concat D ++ tail = norm_text file /\ leftover_ok f tail = false /\ count_nl tail < n).
 Proof.
-  intros Hk. induction fuel as [|fuel IH]; intros st acc l chunks Hnf HI HWa HE Hln Hrun; [discriminate|].
-  cbn [read_chunks_loop] in Hrun. rewrite Hnf in Hrun.
-  pose proof (read_chunk_spec true f m k file st (rev acc) Hk HI) as HS.
-  pose proof (read_chunk_format n hdr plus Hn m k file st (rev acc)) as HFm.
-  pose proof (read_chunk_count n hdr plus Hn m k file st) as HC.
-  pose proof (read_chunk_clean m k file st) as HCl. unfold f in *.
-  destruct (read_chunk true (OneLine n hdr plus) m k file st) as [b d a st'|d a st'|l'| |]; try discriminate.
-  - destruct (HC b d a st' eq_refl) as (Hwb & Heb & Hlb).
-    pose proof (HCl b d a st' eq_refl) as Hcb.
-    destruct (r_finished st') eqn:Ef; [discriminate|].
-    destruct HS as [HS1 _]. destruct (HS1 eq_refl) as (HI' & _ & _).
-    apply (IH st' (b :: acc) l chunks Ef); cbn [rev].
-    + exact HI'.
-    + apply Forall_app. split; [exact HWa|constructor; [split; [exact Hwb|exact Hcb]|constructor]].
-    + apply Forall_app. split; [exact HE|constructor; [exact Heb|constructor]].
-    + rewrite concat_snoc, count_nl_app, <- Hln. exact Hlb.
-    + exact Hrun.
-  - injection Hrun as <- _.
-    destruct (HFm l' Hk HI eq_refl) as (c & j & tail & Hl & Hcut & Htxt).
-    exists (rev acc), c, j, tail. rewrite <- Hln. repeat split; try assumption. lia.
+  intros Hk fuel st acc l chunks.
+  exact (loop_format_gen n hdr plus Hn (clean n hdr plus) cutok_clean m k file Hk fuel st acc l chunks).
 Qed.
 End Reader.
 
@@ -116,36 +102,50 @@ Theorem oneline_first_bad_line : forall n hdr plus m k file l chunks,
 Proof.
   intros n hdr plus m k file l chunks Hn Hp Hh0 Hh10 Hk Hrun. unfold read_chunks in Hrun.
   destruct (loop_format_good n hdr plus Hn Hp Hh10 m k file Hk (length file + 2) rinit [] l chunks eq_refl)
-    as (D & c & j & tail & Hl & HGD & HED & Hcut & Htxt);
-    [split; reflexivity|constructor|constructor|reflexivity|exact Hrun|].
-  destruct (cut_format_first n hdr plus c j Hn Hp Hh0 Hh10 Hcut) as (size & He & Hj & Hbad & Hbefore).
-  set (data := firstn size c) in *.
-  assert (HWD : Forall (whole n) D).
-  { revert HGD. apply Forall_impl. intros x Hx. exact (proj1 Hx). }
-  assert (Htxt' : norm_text file = concat D ++ data ++ (skipn size c ++ tail)).
-  { rewrite <- Htxt. rewrite (app_assoc data). unfold data. rewrite firstn_skipn. reflexivity. }
-  assert (HD : concat D = [] \/ ends_nl (concat D) = true).
-  { destruct (concat_ends D HED) as [->|H]; [left; reflexivity|right; exact H]. }
-  assert (Hlines : lines (norm_text file) = lines (concat D) ++ lines data ++ lines (skipn size c ++ tail)).
-  { rewrite Htxt'. rewrite lines_app' by exact HD. rewrite lines_app by exact He. reflexivity. }
-  assert (HlD : length (lines (concat D)) = count_nl (concat D)) by (apply lines_length; exact HD).
-  assert (Hld : length (lines data) = count_nl data) by (apply lines_length; right; exact He).
-  assert (HmD : count_nl (concat D) mod n = 0) by (apply whole_concat; assumption).
-  pose proof (clean_concat n hdr plus Hn D HGD HED) as HcD.
-  cbn [spec_oneline]. rewrite Hlines. subst l.
-  apply (fbl_first n hdr plus _ 0 (count_nl (concat D) + j)).
-  - rewrite !app_length. lia.
-  - cbn [Nat.add]. rewrite app_nth2 by lia. rewrite HlD.
-    replace (count_nl (concat D) + j - count_nl (concat D)) with j by lia.
-    rewrite app_nth1 by lia.
-    rewrite (line_bad_shift n hdr plus Hn) by exact HmD. exact Hbad.
-  - intros i Hi. cbn [Nat.add].
-    destruct (Nat.lt_ge_cases i (length (lines (concat D)))) as [Hlt|Hge].
-    + rewrite app_nth1 by exact Hlt. apply HcD. exact Hlt.
-    + rewrite app_nth2 by exact Hge. rewrite HlD in *.
-      rewrite app_nth1 by lia.
-      replace i with (count_nl (concat D) + (i - count_nl (concat D))) at 1 by lia.
-      rewrite (line_bad_shift n hdr plus Hn) by exact HmD. apply Hbefore. lia.
+    as [(D & c & j & tail & Hl & HGD & HED & Hcut & Htxt)|(D & tail & Hl & HGD & HED & Htxt & Hleft & Hcnt)];
+    [split; reflexivity|constructor|constructor|reflexivity|exact Hrun| |].
+  - (* a rejected buffer: its first offending line is the first offending line of the text, and it lies in a
+       complete record *)
+    destruct (cut_format_first n hdr plus c j Hn Hp Hh0 Hh10 Hcut) as (size & He & Hj & Hbad & Hbefore & Hdmod).
+    set (data := firstn size c) in *.
+    assert (HWD : Forall (whole n) D).
+    { revert HGD. apply Forall_impl. intros x Hx. exact (proj1 Hx). }
+    assert (Htxt' : norm_text file = concat D ++ data ++ (skipn size c ++ tail)).
+    { rewrite <- Htxt. rewrite (app_assoc data). unfold data. rewrite firstn_skipn. reflexivity. }
+    assert (HD : concat D = [] \/ ends_nl (concat D) = true).
+    { destruct (concat_ends D HED) as [->|H]; [left; reflexivity|right; exact H]. }
+    assert (Hlines : lines (norm_text file) = (lines (concat D) ++ lines data) ++ lines (skipn size c ++ tail)).
+    { rewrite Htxt'. rewrite lines_app' by exact HD. rewrite lines_app by exact He. rewrite app_assoc. reflexivity. }
+    assert (HlD : length (lines (concat D)) = count_nl (concat D)) by (apply lines_length; exact HD).
+    assert (Hld : length (lines data) = count_nl data) by (apply lines_length; right; exact He).
+    assert (HmD : count_nl (concat D) mod n = 0) by (apply whole_concat; assumption).
+    pose proof (clean_concat n hdr plus Hn D HGD HED) as HcD.
+    apply (spec_prefix n hdr plus Hn (norm_text file) _ _ l Hlines).
+    { rewrite app_length, HlD, Hld. rewrite Nat.add_mod by lia. rewrite HmD, Hdmod. cbn [Nat.add].
+      apply Nat.mod_0_l. lia. }
+    subst l.
+    apply (fbl_first n hdr plus _ 0 (count_nl (concat D) + j)).
+    + rewrite !app_length. lia.
+    + cbn [Nat.add]. rewrite app_nth2 by lia. rewrite HlD.
+      replace (count_nl (concat D) + j - count_nl (concat D)) with j by lia.
+      rewrite (line_bad_shift n hdr plus Hn) by exact HmD. exact Hbad.
+    + intros i Hi. cbn [Nat.add].
+      destruct (Nat.lt_ge_cases i (length (lines (concat D)))) as [Hlt|Hge].
+      * rewrite app_nth1 by exact Hlt. apply HcD. exact Hlt.
+      * rewrite app_nth2 by exact Hge. rewrite HlD in *.
+        replace i with (count_nl (concat D) + (i - count_nl (concat D))) at 1 by lia.
+        rewrite (line_bad_shift n hdr plus Hn) by exact HmD. apply Hbefore. lia.
+  - (* every complete record was accepted; the final record is cut short *)
+    assert (HWD : Forall (whole n) D).
+    { revert HGD. apply Forall_impl. intros x Hx. exact (proj1 Hx). }
+    rewrite <- Htxt. rewrite (spec_split n hdr plus Hn (concat D) tail).
+    + rewrite (proj2 (fbl_none n hdr plus Hn (lines (concat D)) 0)).
+      * rewrite Hleft. subst l. reflexivity.
+      * intros j Hj. exact (clean_concat n hdr plus Hn D HGD HED j Hj).
+    + destruct (concat_ends D HED) as [->|H]; [left; reflexivity|right; exact H].
+    + apply whole_concat; assumption.
+    + apply (app_tail_ends (concat D)). rewrite Htxt. apply norm_text_ends.
+    + exact Hcnt.
 Qed.
 
 (* hence two reads of the same file — any two chunk sizes, any two reader modes — that both end in a format
@@ -160,6 +160,62 @@ Proof.
   pose proof (oneline_first_bad_line n hdr plus m1 k1 file l1 c1 Hn Hp Hh0 Hh10 Hk1 H1) as E1.
   pose proof (oneline_first_bad_line n hdr plus m2 k2 file l2 c2 Hn Hp Hh0 Hh10 Hk2 H2) as E2.
   rewrite E1 in E2. injection E2 as E. exact E.
+Qed.
+
+(* ---------- with a single offending line (the property's quantifier), marker byte 10 included ---------- *)
+Lemma split_on_no_sep sep l : Forall (fun p => ~ In sep p) (split_on sep l).
+Proof.
+  induction l as [|x l IH]; cbn [split_on]; [constructor; [intros []|constructor]|].
+  destruct (Z.eqb_spec x sep) as [->|Hne].
+  - constructor; [intros []|exact IH].
+  - destruct (split_on sep l) as [|h t]; [constructor; [intros [H|[]]; congruence|constructor]|].
+    inversion IH; subst. constructor; [|assumption]. intros [H|H]; [congruence|contradiction].
+Qed.
+Lemma lines_sub t l : In l (lines t) -> In l (split_on 10 t).
+Proof.
+  unfold lines. destruct (rev (split_on 10 t)) as [|h r] eqn:E; [intros H; exact H|].
+  destruct h; [|intros H; exact H].
+  intros H. rewrite <- in_rev in H. apply in_rev. rewrite E. right. exact H.
+Qed.
+Lemma line_first_not_nl t j : nthZ (nth j (lines t) []) 0 <> 10%Z.
+Proof.
+  destruct (nth_in_or_default j (lines t) []) as [H|H]; [|rewrite H; discriminate].
+  apply lines_sub in H. pose proof (split_on_no_sep 10 t) as HF. rewrite Forall_forall in HF.
+  specialize (HF _ H). destruct (nth j (lines t) []) as [|x r]; [discriminate|].
+  unfold nthZ. cbn. intros ->. apply HF. left. reflexivity.
+Qed.
+(* with the line break as marker, the first line of a record that was cut short is an offending line *)
+Lemma incomplete_is_bad_10 n plus text l : 1 <= n ->
+  incomplete_at n 10 plus text l -> line_is_bad n 10 plus text l.
+Proof.
+  intros Hn [Hl Hc].
+  assert (Hlt : l < length (lines text)).
+  { destruct (Nat.lt_ge_cases l (length (lines text))) as [H|H]; [exact H|].
+    rewrite skipn_all2 in Hc by exact H. discriminate Hc. }
+  split; [exact Hlt|]. unfold line_bad.
+  assert (Hm : l mod n = 0) by (rewrite Hl; apply Nat.mod_mul; lia).
+  rewrite Hm. cbn [Nat.eqb andb].
+  replace (nthZ (nth l (lines text) []) 0 =? 10)%Z with false
+    by (symmetry; apply Z.eqb_neq; apply line_first_not_nl).
+  reflexivity.
+Qed.
+
+(* the reported line is the same for every chunk size and reader mode (statement unchanged by the end-of-file check) *)
+Corollary oneline_line_chunk_independent : forall n hdr plus m1 k1 m2 k2 file l1 chunks1 l2 chunks2,
+  1 <= n -> (plus = true -> 3 <= n) -> hdr <> 0%Z -> 1 <= k1 -> 1 <= k2 ->
+  (forall i j, line_is_bad n hdr plus (norm_text file) i -> line_is_bad n hdr plus (norm_text file) j -> i = j) ->
+  read_chunks true (OneLine n hdr plus) m1 k1 file = FormatError l1 chunks1 ->
+  read_chunks true (OneLine n hdr plus) m2 k2 file = FormatError l2 chunks2 ->
+  l1 = l2.
+Proof.
+  intros n hdr plus m1 k1 m2 k2 file l1 c1 l2 c2 Hn Hp Hh Hk1 Hk2 Huniq H1 H2.
+  destruct (Z.eq_dec hdr 10) as [->|Hh10].
+  - apply Huniq.
+    + destruct (oneline_reported_line_offends n 10%Z plus m1 k1 file l1 c1 Hn Hp Hh Hk1 H1) as [H|H];
+        [exact H|exact (incomplete_is_bad_10 n plus _ l1 Hn H)].
+    + destruct (oneline_reported_line_offends n 10%Z plus m2 k2 file l2 c2 Hn Hp Hh Hk2 H2) as [H|H];
+        [exact H|exact (incomplete_is_bad_10 n plus _ l2 Hn H)].
+  - exact (oneline_line_chunk_independent_strong n hdr plus m1 k1 m2 k2 file l1 c1 l2 c2 Hn Hp Hh Hh10 Hk1 Hk2 H1 H2).
 Qed.
 
 Corollary model_oneline_format_at_first : forall n hdr plus m k file l,
@@ -212,4 +268,51 @@ Qed.
 Example first_bad_line_marker_10 :
   read_chunks true (OneLine 1 10 false) Seek 1 [10;88;10]%Z = FormatError 1 [[10%Z]]
   /\ spec_oneline (OneLine 1 10 false) (norm_text [10;88;10]%Z) = Some 0.
+Proof. split; vm_compute; reflexivity. Qed.
+
+(* ---------- an entry cut short at the end of the file ---------- *)
+(* "@a/AC/+/!!" followed by "@b/G/!": the second record lacks its '+' line, so only three of its four lines exist *)
+Definition fq_truncated : list Z := [64;97;10;65;67;10;43;10;33;33;10; 64;98;10;71;10;33;10]%Z.
+Definition fq_first_record : list Z := [64;97;10;65;67;10;43;10;33;33;10]%Z.
+Definition chunk_sizes_1_30 : list nat := map S (seq 0 30).
+
+(* the repaired reader: every chunk size 1..30, both modes, reports line 4 - the first line of the truncated record,
+   which is what the specification says *)
+Example truncated_record_reported :
+  forallb (fun k => match read_chunks true FastQ Seek k fq_truncated, read_chunks true FastQ Prepend k fq_truncated with
+                    | FormatError 4 _, FormatError 4 _ => true
+                    | _, _ => false
+                    end) chunk_sizes_1_30 = true
+  /\ spec_oneline FastQ (norm_text fq_truncated) = Some 4
+  /\ incomplete_at 4 64 true (norm_text fq_truncated) 4
+  /\ ~ line_is_bad 4 64 true (norm_text fq_truncated) 4.
+Proof.
+  split; [vm_compute; reflexivity|]. split; [vm_compute; reflexivity|]. split; [split; vm_compute; reflexivity|].
+  intros [_ H]. vm_compute in H. discriminate H.
+Qed.
+
+(* the code at the pinned commit dropped the truncated record silently: every chunk size 1..30, both modes, ends
+   the stream normally after delivering the first record only *)
+Theorem truncated_record_pinned_refuted :
+  exists file k m chunks dropped app lines,
+    read_chunks false FastQ m k file = Done chunks dropped app lines
+    /\ spec_oneline FastQ (norm_text file) = Some 4
+    /\ chunks = [fq_first_record] /\ dropped = [64;98;10;71;10;33;10]%Z
+    /\ forallb (fun k' => match read_chunks false FastQ Seek k' file, read_chunks false FastQ Prepend k' file with
+                          | Done c1 _ _ _, Done c2 _ _ _ => zll_eqb c1 [fq_first_record] && zll_eqb c2 [fq_first_record]
+                          | _, _ => false
+                          end) chunk_sizes_1_30 = true.
+Proof.
+  exists fq_truncated, 5, Seek. eexists. eexists. eexists. eexists.
+  split; [vm_compute; reflexivity|]. repeat split; vm_compute; reflexivity.
+Qed.
+
+(* a trailing blank line is no record: the stream still completes, for every chunk size 1..30 and both modes *)
+Example trailing_blank_line_done :
+  let file := (fq_first_record ++ [10])%Z in
+  forallb (fun k => match read_chunks true FastQ Seek k file, read_chunks true FastQ Prepend k file with
+                    | Done c1 _ _ _, Done c2 _ _ _ => zll_eqb c1 [fq_first_record] && zll_eqb c2 [fq_first_record]
+                    | _, _ => false
+                    end) chunk_sizes_1_30 = true
+  /\ spec_oneline FastQ (norm_text file) = None.
 Proof. split; vm_compute; reflexivity. Qed.
